@@ -1,6 +1,8 @@
 from contextlib import contextmanager
 from typing import Generator, List
 
+ERROR_PREFIX = "An error occured while rendering components "
+
 
 @contextmanager
 def component_error_message(component_path: List[str]) -> Generator[None, None, None]:
@@ -21,18 +23,20 @@ def component_error_message(component_path: List[str]) -> Generator[None, None, 
         components = err._components = [*component_path, *components]  # type: ignore[attr-defined]
 
         # Access the exception's message, see https://stackoverflow.com/a/75549200/9788634
+        # NOTE: The first argument doesn't have to be a string, e.g. `KeyError(1)` or `OSError(2, "...")`
         if len(err.args) and err.args[0] is not None:
-            if not components:
-                orig_msg = str(err.args[0])
-            else:
-                orig_msg = err.args[0].split("\n", 1)[-1]
+            orig_msg = str(err.args[0])
+            # If the message was already prefixed with the component path (by a component deeper
+            # in the tree), drop the old prefix - we prepend the full path below.
+            if orig_msg.startswith(ERROR_PREFIX):
+                orig_msg = orig_msg.split("\n", 1)[-1]
         else:
             orig_msg = str(err)
 
         # Format component path as
         # "MyPage > MyComponent > MyComponent(slot:content) > Base(slot:tab)"
         comp_path = " > ".join(components)
-        prefix = f"An error occured while rendering components {comp_path}:\n"
+        prefix = f"{ERROR_PREFIX}{comp_path}:\n"
 
         err.args = (prefix + orig_msg,)  # tuple of one
 
